@@ -13,6 +13,7 @@ import Driver.Delay
 import Driver.RDL
 import Driver.Listener
 import Driver.Life
+import Driver.Ctx
 
 def main (args : List String) : IO UInt32 := do
   match args with
@@ -32,4 +33,5 @@ def main (args : List String) : IO UInt32 := do
   | ["rdl"] => Driver.runComponent Driver.RDL.comp; return 0
   | ["listener"] => Driver.runComponent Driver.Listener.comp; return 0
   | ["life"] => Driver.runComponent Driver.Life.comp; return 0
+  | ["ctx"] => Driver.runComponent Driver.Ctx.comp; return 0
   | _ => IO.eprintln "usage: vdrv <component> [args]"; return 2
